@@ -237,8 +237,9 @@ Proof.
   destruct (existsb (Z.eqb h) (distinct_insts (r_samples r) [])) eqn:E.
   - apply existsb_eqb_in, distinct_in in E. destruct E as [[]|E]. split; [discriminate|tauto].
   - apply existsb_eqb_notin in E. rewrite distinct_in in E.
-    destruct (q_mi (r_qos r)) as [m|]; rewrite ?Z.eqb_eq; split; try discriminate; try tauto;
-      intros [A B]; try discriminate; try split; try congruence; tauto.
+    destruct (q_mi (r_qos r)) as [m|].
+    + rewrite Z.eqb_eq. split; [intros ->; split; [reflexivity|tauto]|intros [A _]; congruence].
+    + split; [discriminate|intros [A _]; discriminate].
 Qed.
 Lemma mspi_hit_spec r h :
   mspi_hit r h = true <->
